@@ -215,6 +215,16 @@ def step (st : State) (w : List String) : State × String :=
           k ++ "=" ++ "+".intercalate (if sortAddrs then sortUniq addrs else addrs))
       ({ st with deleg := d }, s!"res={res} d={fmt d.delegs true} g={fmt d.glue4 false}")
     | _, _, _, _, _ => (st, "bad-op")
+  | ["fallback", "run", rcs, ncfg, fatal] =>
+    match (listOf rcs ",").mapM String.toNat?, ncfg.toNat? with
+    | some rs, some nc =>
+      let fk : List FatalKind := (if fatal == "-" then [] else fatal.toList).map fun c =>
+        if c == 'w' then FatalKind.workLimit else if c == 'a' then FatalKind.attemptLimit else FatalKind.network
+      (st, match pickFallback rs nc fk with
+        | Fallback.resp i => s!"resp {i}"
+        | Fallback.config i => s!"config {i}"
+        | Fallback.err k => s!"err {k}")
+    | _, _ => (st, "bad-op")
   | ["nslookup", "run", v6, level, qname, hosts, extras, host, v6lookup, sub] =>
     let subP : Option (Option (List AddrRR)) :=
       if sub == "F" then some none
